@@ -269,6 +269,42 @@ def loop_headers(body):
     return out
 
 
+def _sha_text(t):
+    import hashlib
+    return hashlib.sha256(t.encode()).hexdigest()[:16]
+
+
+def loop_spans(body):
+    """[(kw_pos, brace_open, brace_close)] for each `for`/`while`/`loop`, in textual order."""
+    out = []
+    sset = set(p for p, _ in _scan_tokens(body, 0))
+    for m in re.finditer(r"\b(for|while|loop)\b", body):
+        if m.start() not in sset:
+            continue
+        depth = 0
+        for pos, ch in _scan_tokens(body, m.end()):
+            if ch in "([":
+                depth += 1
+            elif ch in ")]":
+                depth -= 1
+            elif ch == "{" and depth == 0:
+                out.append((m.start(), pos, match_brace(body, pos)))
+                break
+    return out
+
+
+def _anchor(body, pat, occ, what):
+    sset = set(p for p, _ in _scan_tokens(body, 0))
+    ms = [m for m in re.finditer(pat, body) if m.start() in sset]
+    if occ is None:
+        if len(ms) != 1:
+            raise ExtractError(f"{what}: anchor {pat!r} matched {len(ms)} times (expected 1)")
+        return ms[0]
+    if occ >= len(ms):
+        raise ExtractError(f"{what}: anchor {pat!r} occurrence #{occ} not found ({len(ms)} matches)")
+    return ms[occ]
+
+
 def render_fn(fn, recipe, log):
     """Apply a recipe to an extracted fn; returns Verus text."""
     sig = fn["sig"].rstrip()
@@ -299,20 +335,58 @@ def render_fn(fn, recipe, log):
             raise ExtractError(f"rewrite pattern {pat!r} did not match")
         log["rewrites"].append(f"{pat} -> {repl} ({why}; {k}x)")
         body = new
-    # loop invariants (insert from last to first so positions stay valid)
+    # ---- specification / proof insertions (never executable code) ----
+    ins = []  # (position, order, text)
+    order = 0
     loops = recipe.get("loops", {})
     loop_proofs = recipe.get("loop_proofs", {})
-    if loops or loop_proofs:
-        heads = loop_headers(body)
-        if len(heads) != recipe.get("loop_count", len(heads)):
-            raise ExtractError(f"expected {recipe.get('loop_count')} loops, found {len(heads)}")
-        for idx in sorted(set(loops) | set(loop_proofs), reverse=True):
-            if idx >= len(heads):
+    need_loops = set(loops) | set(loop_proofs) | set(recipe.get("before_loop", {})) | set(recipe.get("after_loop", {})) | set(recipe.get("end_of_loop_body", {}))
+    if need_loops or "loop_count" in recipe:
+        spans = loop_spans(body)
+        if "loop_count" in recipe and len(spans) != recipe["loop_count"]:
+            raise ExtractError(f"expected {recipe.get('loop_count')} loops, found {len(spans)}")
+        for idx in sorted(need_loops):
+            if idx >= len(spans):
                 raise ExtractError(f"loop #{idx} not found")
-            p = heads[idx]
-            pre = loops.get(idx, "")
-            post = loop_proofs.get(idx, "")
-            body = body[:p] + "\n" + pre.rstrip() + "\n{" + post.rstrip() + "\n" + body[p + 1:]
+            kw, bo, bc = spans[idx]
+            if idx in recipe.get("before_loop", {}):
+                ins.append((kw, order, recipe["before_loop"][idx].rstrip() + "\n")); order += 1
+            if idx in loops:
+                ins.append((bo, order, "\n" + loops[idx].rstrip() + "\n")); order += 1
+            if idx in loop_proofs:
+                ins.append((bo + 1, order, loop_proofs[idx].rstrip() + "\n")); order += 1
+            if idx in recipe.get("end_of_loop_body", {}):
+                ins.append((bc, order, recipe["end_of_loop_body"][idx].rstrip() + "\n")); order += 1
+            if idx in recipe.get("after_loop", {}):
+                ins.append((bc + 1, order, "\n" + recipe["after_loop"][idx].rstrip() + "\n")); order += 1
+    for pat, occ, text in recipe.get("insert_after", []):
+        m = _anchor(body, pat, occ, "insert_after")
+        ins.append((m.end(), order, "\n" + text.rstrip() + "\n")); order += 1
+    for pat, occ, text in recipe.get("insert_before", []):
+        m = _anchor(body, pat, occ, "insert_before")
+        ins.append((m.start(), order, text.rstrip() + "\n")); order += 1
+    outlined = ""
+    ot = recipe.get("outline_tail")
+    if ot:
+        # The statements from the anchor to the end of the function body are moved VERBATIM into an
+        # external_body function (contract assumed, listed as such); the call replaces them.
+        m = _anchor(body, ot["start"], None, "outline_tail")
+        end = len(body) - 1  # closing brace of the fn body
+        tail_text = body[m.start():end]
+        ins = [x for x in ins if x[0] < m.start()]
+        log["rewrites"].append(f"outline_tail: the last statements of the body ({len(tail_text.strip().splitlines())} lines starting at `{tail_text.strip().splitlines()[0][:60]}`) moved verbatim into external_body fn {ot['fn']} whose contract is ASSUMED")
+        log.setdefault("outlined_sha", []).append(_sha_text(tail_text))
+        norm_sha = _sha_text(re.sub(r"\s+", " ", tail_text.strip()))
+        log.setdefault("outlined_norm_sha", []).append(norm_sha)
+        if ot.get("expect_sha") and norm_sha != ot["expect_sha"]:
+            raise ExtractError("outline_tail: the outlined statements changed (sha " + norm_sha + "); their assumed contract must be re-validated")
+        outlined = (f"#[verifier::external_body]\nfn {ot['fn']}({ot['params']}) -> ({ot.get('ret_name', 'r')}: {ot['ret']})\n"
+                    f"{ot['spec'].rstrip()}\n{{\n{ot.get('prelude', '')}\n{tail_text}\n}}\n")
+        body = body[:m.start()] + ot["call"].rstrip() + "\n" + body[end:]
+    for pos, _, text in sorted(ins, key=lambda x: (-x[0], -x[1])):
+        body = body[:pos] + text + body[pos:]
+    if outlined:
+        log.setdefault("outlined_fns", []).append(outlined)
     spec = recipe.get("spec", "")
     return f"{sig}\n{spec.rstrip()}\n{body}\n"
 
